@@ -31,6 +31,8 @@ import (
 type deepShape struct{ head, open, sep, core, close, tail string }
 
 type corpus struct {
+	events   func(in string) []event // all events of an uncancelled parse (set before validate)
+	sigs     []uint64 // per item: signature of the events of an undamaged parse (0: context dependent)
 	deep     []deepShape
 	prologue string
 	items    []string
@@ -52,8 +54,18 @@ func (c *corpus) gen(src *sim.Src, ntok, brk int) (string, []itemSpan) {
 		}
 	}
 	period := 0
+	insertGarbage := false
 	if brk == 2 {
-		period = 4 + src.Draw(60)
+		period = 1 + src.Draw(64)
+		if src.Chance(1, 3) {
+			period = 1 + src.Draw(3) // dense damage: an error every few tokens
+		}
+		// either every period-th item is damaged, or a garbage pseudo-item is inserted
+		// after every period-th item (dense damage keeps the real items intact)
+		insertGarbage = period < 4 || src.Chance(1, 2)
+		if src.Chance(1, 2) {
+			subset = []int{src.Draw(len(c.items))} // strictly periodic input
+		}
 	}
 	// phase sweep: one item repeated behind 0..15 copies of the shortest item, so that the
 	// parser's shift counter meets the repeated item at every phase (a poll period that
@@ -66,6 +78,7 @@ func (c *corpus) gen(src *sim.Src, ntok, brk int) (string, []itemSpan) {
 	f := src.Fork()
 	var spans []itemSpan
 	var damaged []int
+	nitems := 0
 	if phase > 0 {
 		short := 0
 		for i := range c.items {
@@ -76,7 +89,7 @@ func (c *corpus) gen(src *sim.Src, ntok, brk int) (string, []itemSpan) {
 		for k := 0; k < phase; k++ {
 			off := b.Len()
 			b.WriteString(c.items[short])
-			spans = append(spans, itemSpan{off: off, end: b.Len(), toks: c.toks[short], intact: true})
+			spans = append(spans, itemSpan{off: off, end: b.Len(), toks: c.toks[short], intact: true, sig: c.sigs[short]})
 			b.WriteString(c.sep)
 		}
 	}
@@ -122,16 +135,24 @@ func (c *corpus) gen(src *sim.Src, ntok, brk int) (string, []itemSpan) {
 			i = f.Draw(len(c.items))
 		}
 		text := c.items[i]
-		hit := period > 0 && (len(spans)+1)%period == 0
-		if hit {
+		hit := period > 0 && (nitems+1)%period == 0
+		nitems++
+		if hit && !insertGarbage {
 			text = breakInput(f, text)
 			damaged = append(damaged, len(spans))
 		}
 		off := b.Len()
 		b.WriteString(text)
-		spans = append(spans, itemSpan{off: off, end: b.Len(), toks: c.toks[i], intact: !hit})
+		spans = append(spans, itemSpan{off: off, end: b.Len(), toks: c.toks[i], intact: !(hit && !insertGarbage), sig: c.sigs[i]})
 		b.WriteString(c.sep)
 		n += max(1, c.toks[i])
+		if hit && insertGarbage {
+			g := [...]string{")", "}", "]", ") )", "} ;", "@", "= =", ", ,", ": :", "%"}[f.Draw(10)]
+			off := b.Len()
+			b.WriteString(g)
+			spans = append(spans, itemSpan{off: off, end: b.Len(), toks: 0, intact: false})
+			b.WriteString(c.sep)
+		}
 	}
 	b.WriteString(c.epilogue)
 	out := b.String()
@@ -161,14 +182,12 @@ func (c *corpus) gen(src *sim.Src, ntok, brk int) (string, []itemSpan) {
 		nb.WriteString(c.epilogue)
 		out = nb.String()
 	}
-	// neighbours of a damaged item may be swallowed by its recovery
-	for _, j := range damaged {
-		for _, d := range []int{-1, 1, 2} {
-			if j+d >= 0 && j+d < len(spans) {
-				spans[j+d].intact = false
-			}
-		}
-	}
+	// Neighbours of damaged items stay countable: an item counts only when an event with
+	// exactly its span is reported, i.e. when the parser reduced it as a unit — an error
+	// node starts at the offending token, before the item — and a parser that honours
+	// cancellation reports at most a poll period's worth of items after the canceller
+	// fired, far below the bound, whatever recovery does in between.
+	_ = damaged
 	return out, spans
 }
 
@@ -194,6 +213,33 @@ func (c *corpus) validate(ends func(string) []int, ok func(string) bool) (droppe
 		}
 	}
 	c.items = items
+	c.sigs = make([]uint64, len(items))
+	if c.events != nil {
+		// The events an undamaged parse reports inside one item, taken from two different
+		// positions of a valid input; an item whose events depend on its position gets no
+		// signature and never counts for the bounded-stop oracle.
+		for i, it := range items {
+			other := items[(i+1)%len(items)]
+			in := c.prologue + it + c.sep + other + c.sep + it + c.sep + c.epilogue
+			o1 := len(c.prologue)
+			o2 := o1 + len(it) + len(c.sep) + len(other) + len(c.sep)
+			var s1, s2 uint64
+			for _, e := range c.events(in) {
+				if e.kind != 'E' {
+					continue
+				}
+				if o1 <= e.off && e.end <= o1+len(it) {
+					s1 = evSig(s1, e.t, e.flags, e.off-o1, e.end-o1)
+				}
+				if o2 <= e.off && e.end <= o2+len(it) {
+					s2 = evSig(s2, e.t, e.flags, e.off-o2, e.end-o2)
+				}
+			}
+			if s1 == s2 {
+				c.sigs[i] = s1
+			}
+		}
+	}
 	var deep []deepShape
 	for _, d := range c.deep {
 		probe := c.prologue + d.head + strings.Repeat(d.open+d.sep, 3) + d.core + strings.Repeat(d.close+d.sep, 3)
@@ -604,6 +650,19 @@ func genDecl1(src *sim.Src, ntok int) string {
 
 // ---------------------------------------------------------------------------------
 
+// eventsWith returns a function that parses an input without cancellation and returns
+// every event reported.
+func eventsWith(parse func(ctx context.Context, in string, rec *recorder) (string, error)) func(string) []event {
+	return func(in string) []event {
+		ctx := newSimCtx(errCanceled, -1)
+		rec := &recorder{ctx: ctx, diverged: -1}
+		ctx.rec = rec
+		defer func() { recover() }()
+		parse(ctx, in, rec)
+		return rec.ev
+	}
+}
+
 func okWith(parse func(ctx context.Context, in string, rec *recorder) (string, error)) func(string) bool {
 	return func(in string) bool {
 		ctx := newSimCtx(errCanceled, -1)
@@ -617,6 +676,10 @@ func okWith(parse func(ctx context.Context, in string, rec *recorder) (string, e
 var droppedItems = map[string][]string{}
 
 func initTargets() {
+	tmCorpus.events = eventsWith(tmParseWith(false))
+	jsCorpus.events = eventsWith(jsParse)
+	jsExprCorpus.events = eventsWith(jsParseExpr)
+	testCorpus.events = eventsWith(testParse)
 	droppedItems["tm"] = tmCorpus.validate(tmTokenEnds, okWith(tmParseWith(false)))
 	droppedItems["js"] = jsCorpus.validate(jsTokenEnds, okWith(jsParse))
 	droppedItems["jsexpr"] = jsExprCorpus.validate(jsTokenEnds, okWith(jsParseExpr))
@@ -658,6 +721,7 @@ func registerGenerated(name string, parse func(ctx context.Context, in string, e
 	p := func(ctx context.Context, in string, rec *recorder) (string, error) {
 		return "", parse(ctx, in, rec.Event, rec.ErrH)
 	}
+	c.events = eventsWith(p)
 	droppedItems[name] = c.validate(ends, okWith(p))
 	if len(c.items) == 0 {
 		return
